@@ -188,6 +188,7 @@ FIXED = [
   fixed("C04", "do not put braces around a closure body that is reproduced verbatim with a line break", "'#g(x => /* @typstyle off */ v =<newline> b)' at a narrow width: braces around a protected body whose line break ends the statement (side remark of a sub-agent; the directive level now pairs the directive with a line break)"),
   fixed("C03", "sort import items by their text without blanks", "with reordering on, 'a . b, a-c' kept its order in the first run and was swapped by the second (side remark of a sub-agent; import item 'a-c' added to the alphabet; also C19)"),
   fixed("C03", "ignore a line of nothing but blanks when measuring the indentation of a block comment", "a block comment with a tab-only line was re-indented by the second run (side remark of a sub-agent; form bc_tab_line)"),
+  fixed("C04", "keep a backslash that is the base of an attachment apart from the operator", "'$\\ _b$' -> '$\\_b$': escaped underscore, the subscript was lost (side remark of a sub-agent; productions m_bs_sub / m_bs_sup; also C01 C10)"),
   fixed("C14", "format-all reports a directory that is missing or cannot be listed", "'typstyle format-all nonexistent' exited 0 (side remark of a sub-agent; the CLI model now runs format-all on a missing directory; also C15)"),
   fixed("C15", "format-all skips hidden entries whose names are not valid Unicode", "a hidden file or directory whose name is not valid UTF-8 was formatted by format-all (side remark of a sub-agent)"),
   fixed("C01", "do not break a content block that holds nothing but block comments", "'a#[/*c*/]b' was printed with the comment on its own line: empty content became a blank (also C02 C08)"),
